@@ -305,6 +305,41 @@ func (c *vT) checkC09() {
 		return
 	}
 	okE, okL, okLn, okR, okRn := true, true, true, true, true
+	if c.n > 8 {
+		// skeletons: values (hence the retained flags) are concrete; linear scan
+		prev := -1
+		for i := 0; i < c.n; i++ {
+			if !c.ret[i] {
+				continue
+			}
+			next := -1
+			for j := i + 1; j < c.n; j++ {
+				if c.ret[j] {
+					next = j
+					break
+				}
+			}
+			l, e, r := c.st.Search(c.keys[i])
+			okE = vAnd(okE, vAnd(e != nil, c.valEq(e, i)))
+			if prev >= 0 {
+				okL = vAnd(okL, vAnd(l != nil, c.valEq(l, prev)))
+			} else {
+				okLn = vAnd(okLn, l == nil)
+			}
+			if next >= 0 {
+				okR = vAnd(okR, vAnd(r != nil, c.valEq(r, next)))
+			} else {
+				okRn = vAnd(okRn, r == nil)
+			}
+			prev = i
+		}
+		vAssert(okE, "C09.eq")
+		vAssert(okL, "C09.left")
+		vAssert(okLn, "C09.left.nil")
+		vAssert(okR, "C09.right")
+		vAssert(okRn, "C09.right.nil")
+		return
+	}
 	for i := 0; i < c.n; i++ {
 		l, e, r := c.st.Search(c.keys[i])
 		ri := c.ret[i]
